@@ -71,9 +71,11 @@ static const uint8_t CONmtModeCode[CO_MODE_NUM] = {
 
 void CONmtReset(CO_NMT *nmt, CO_NMT_RESET type)
 {
-    CO_OBJ *store;
-    uint8_t nobootup = 1;
-    CO_ERR  err;
+    CO_OBJ    *store;
+    CO_OBJ    *obj;
+    CO_HBCONS *hbc;
+    uint8_t    nobootup = 1;
+    CO_ERR     err;
 
     ASSERT_PTR_FATAL(nmt);
 
@@ -107,14 +109,47 @@ void CONmtReset(CO_NMT *nmt, CO_NMT_RESET type)
         if (err != CO_ERR_NONE) {
             nmt->Node->Error = CO_ERR_LSS_LOAD;
         }
+        if (nmt->Node->Lss.Tmr >= 0) {
+            (void)COTmrDelete(&nmt->Node->Tmr, nmt->Node->Lss.Tmr);
+        }
         COLssInit(&nmt->Node->Lss, nmt->Node);
 #endif //USE_LSS
         COTmrClear(&nmt->Node->Tmr);
+        /* stop the timers of the heartbeat consumers and the SYNC
+         * producer, before their management data is cleared */
+        hbc = nmt->HbCons;
+        while (hbc != NULL) {
+            if (hbc->Tmr >= 0) {
+                (void)COTmrDelete(&nmt->Node->Tmr, hbc->Tmr);
+                hbc->Tmr = -1;
+            }
+            hbc = hbc->Next;
+        }
+        if (nmt->Node->Sync.Tmr >= 0) {
+            (void)COTmrDelete(&nmt->Node->Tmr, nmt->Node->Sync.Tmr);
+        }
         CONmtInit(nmt, nmt->Node);
         COSdoInit(nmt->Node->Sdo, nmt->Node);
+#if USE_CSDO
+        COCSdoInit(nmt->Node->CSdo, nmt->Node);
+#endif
         COIfCanReset(&nmt->Node->If);
         COEmcyReset(&nmt->Node->Emcy, 1);
         COSyncInit(&nmt->Node->Sync, nmt->Node);
+        /* restart SYNC, heartbeat consumers and heartbeat producer
+         * with the current values of their objects (as CONodeInit) */
+        obj = CODictFind(&(nmt->Node->Dict), CO_DEV(0x1005, 0));
+        if (obj != NULL) {
+            (void)COObjInit(obj, nmt->Node);
+        }
+        obj = CODictFind(&(nmt->Node->Dict), CO_DEV(0x1016, 0));
+        if (obj != NULL) {
+            (void)COObjInit(obj, nmt->Node);
+        }
+        obj = CODictFind(&(nmt->Node->Dict), CO_DEV(0x1017, 0));
+        if (obj != NULL) {
+            (void)COObjInit(obj, nmt->Node);
+        }
         if (nobootup == 0) {
             CONmtBootup(nmt);
         }
